@@ -321,3 +321,56 @@ func derefAll(t types.Type) types.Type {
 		t = p.Elem()
 	}
 }
+
+// c14NoInvention: custom JSON decoders of consensus objects do not fill a field from another field of the value they decode (a default that
+// the encoder does not mirror makes the value change under its own round trip).
+func c14NoInvention(c *core.Ctx) {
+	c.Run("decoder-invents-nothing", func() {
+		n := 0
+		for _, spec := range []string{"chain/types.Transaction.UnmarshalJSON", "chain/types.Transaction.DecodeRLP", "chain/types.Header.DecodeRLP", "chain/types.ChangeLog.DecodeRLP"} {
+			fn := c.Fn(spec)
+			n++
+			var bad ssa.Instruction
+			for _, b := range fn.Blocks {
+				for _, in := range b.Instrs {
+					st, ok := in.(*ssa.Store)
+					if !ok {
+						continue
+					}
+					dst, isFA := st.Addr.(*ssa.FieldAddr)
+					if !isFA {
+						continue
+					}
+					// the stored value IS (the address of, or a copy of) a sibling field of the same struct value; a value merely computed with
+					// the help of a sibling (a decoder chosen by the type field) is not meant
+					v := st.Val
+					for {
+						switch x := v.(type) {
+						case *ssa.ChangeType:
+							v = x.X
+							continue
+						case *ssa.Convert:
+							v = x.X
+							continue
+						case *ssa.UnOp:
+							if x.Op == token.MUL {
+								v = x.X
+								continue
+							}
+						}
+						break
+					}
+					if src, isSrc := v.(*ssa.FieldAddr); isSrc && src != dst && src.X == dst.X && src.Field != dst.Field {
+						bad = st
+					}
+				}
+			}
+			where := ""
+			if bad != nil {
+				where = c.Pos(bad.Pos())
+			}
+			c.Check("no-sibling-default/"+shortFn(fn), "codec-agreement", bad == nil, fn.Pos(), "%s fills no field of the decoded value from another field of that value (offending store: %s)", shortFn(fn), where)
+		}
+		c.Floor("custom-decoders-scanned", n, 4)
+	})
+}
